@@ -180,7 +180,7 @@ impl Discv5 {
     /// Verification hook: starts the real `Service` with a scripted handler. The caller receives
     /// every `HandlerIn` the service emits and injects `HandlerOut` events (and learns through the
     /// last channel when the service asks the handler to exit).
-    /// Verification hook: makes the running service's queries and IP votes `d` older.
+    /// Verification hook: makes the running service's queries, IP votes and pending table slots `d` older.
     #[cfg(discv5_verif)]
     pub async fn verif_age(&self, d: Duration) -> bool {
         match self.service_channel.as_ref() {
